@@ -20,7 +20,7 @@ TIME_BUDGET = {"quick": 300, "thorough": 1800}
 FLOORS = {"quick": {"pairs": 800, "steps_compared": 3000, "bytes_compared": 1000000, "pairs_with_exception": 150, "tcp_pairs": 2, "distinct": 500},
           "thorough": {"pairs": 15000, "steps_compared": 60000, "pairs_with_exception": 3000, "tcp_pairs": 8}}
 
-PERTS = ["none", "none", "fault", "stall", "cap", "corrupt", "auth", "disconnected", "eofstall", "syncfail", "large", "slowlink", "longpath", "closefault", "slowpush"]
+PERTS = ["none", "none", "fault", "stall", "cap", "corrupt", "auth", "disconnected", "eofstall", "syncfail", "large", "slowlink", "longpath", "closefault", "slowpush", "reconnect", "dirs"]
 
 
 def gen_cases(tier, seed):
@@ -141,6 +141,14 @@ def one_side(impl, case, sc, pert):
         tkw = {}
         close_at = rng.randint(0, max(0, len(sc["steps"]) - 1)) if pert == "closefault" else None
         for i, step in enumerate(sc["steps"]):
+            if pert == "reconnect" and i > 0:
+                if rng.random() < 0.4:
+                    oc = sess.call("close")
+                    rec["outs"].append(("close", oc.kind, oc.value if oc.ok else oc.exc_name(), []))
+                sim.maxdata = rng.choice([m for m in gen.MAXDATAS if m != sim.maxdata])
+                oc = sess.call("connect")
+                rec["outs"].append(("connect", oc.kind, oc.value if oc.ok else oc.exc_name(), []))
+                rec["avail"].append(sess.dev.available)
             if close_at == i:
                 oc = sess.call("close")
                 rec["outs"].append(("close", oc.kind, oc.value if oc.ok else oc.exc_name(), []))
@@ -457,6 +465,17 @@ def run_case(case):
         for st in sc["steps"]:
             if st["op"] == "push" and st.get("mtime") == 0:
                 st["mtime"] = 4
+    if pert == "reconnect":
+        # one device object re-connected (with / without close()) to a device announcing another maxdata, transfers before and after
+        sc["steps"] = [{"op": rng.choice(["push", "push", "pull"]), "path": "/rc%d" % i, "size": rng.choice([100, 9000, 70000, 140000]), "seed": case["seed"] + str(i), "src": "bytesio", "rec": "64k",
+                        "split": "whole", "dest": "bytesio", "mode": 0o100644, "mtime": 4, "cb": rng.choice([None, "ok"])} for i in range(rng.randint(2, 4))]
+        sc["dims"]["noise"] = []
+    if pert == "dirs":
+        sc = scen.gen_scenario(rng, nsteps=rng.randint(1, 5), fails=True, dirs=True)
+        for st in sc["steps"]:
+            if st.get("mtime") == 0:
+                st["mtime"] = 4
+        pert = "none"
     if pert == "fit":
         sc = {"dims": {"maxdata": case["maxdata"], "remote": "random", "id_start": 0, "frag": "whole", "empty_rate": 0.0, "noise": []},
               "steps": [{"op": "push", "path": rng.choice(["/d", "/data", "/sdcard/x.bin"]), "size": case["size"], "seed": case["seed"], "src": "bytesio", "mode": 0o100644, "mtime": 6, "cb": None}]}
